@@ -134,6 +134,10 @@ class Check:
         self.cov["known_findings_observed"] = {k: v[1] for k, v in self.known_hits.items()}
         rc = 0
         lines = []
+        d0 = REPLAYS / self.pid
+        if d0.exists():
+            for old in d0.glob(self.tier + "_*.json"):
+                old.unlink()
         if self.violations:
             rc = 1
             d = REPLAYS / self.pid
